@@ -1,5 +1,17 @@
+"""C19 deductive tier: exp-sum loop invariant of entropic mirror descent (weights sum to the total), the total estimate that
+feeds it (the public_inference.py copy of estimate_total, same contract as C09), and Dataset.project (the marginal of the public
+records is laid out in the order the measurement names its attributes)."""
+from .. import deductive
 from . import normal_ded
+from ..contracts import totals as T
+from ..contracts import dsproject as DP
 
 
 def run(tier):
-    return normal_ded.reports(('C19',))
+    reps = list(normal_ded.reports(('C19',)))
+    for rel, q, c in T.ITEMS:
+        if rel == 'src/mbi/public_inference.py':
+            reps.append(deductive.verify_function(rel, q, c, hooks=T.hooks_for(c)))
+    for rel, q, c in DP.ITEMS:
+        reps.append(deductive.verify_function(rel, q, c, hooks=DP.hooks_for(c)))
+    return reps
